@@ -52,7 +52,9 @@ func report(prop, tier string, all []*Obligation, functions []string, trusted, i
 	known := loadKnown()
 	isKnown := func(name string) *KnownFinding {
 		for i := range known {
-			if !known[i].Fixed && known[i].Property == prop && known[i].Obligation == name {
+			// a recorded finding is identified by the obligation (and its input); the same obligation can be
+			// selected by the thorough tier of other properties
+			if !known[i].Fixed && known[i].Obligation == name {
 				return &known[i]
 			}
 		}
@@ -118,7 +120,7 @@ func report(prop, tier string, all []*Obligation, functions []string, trusted, i
 				}
 			}
 			if still {
-				fmt.Printf("KNOWN-FINDING: property=%s %s %s\n", prop, o.Name, desc)
+				fmt.Printf("KNOWN-FINDING: property=%s %s %s\n", kf.Property, o.Name, desc)
 				knownPrinted = append(knownPrinted, o.Name)
 				o.Known = true
 				continue
